@@ -173,8 +173,10 @@ static int mode_smooth(int cases, int max_nr, int max_nt)
 //   ct = circle_tridiagonal_solver_[k]  "main/sub/corner" ; ...      cd = circle_diagonal_solver_[k]  diag ; ...  ("-" = dimension 0)
 //   rt = radial_tridiagonal_solver_[k]                                rd = radial_diagonal_solver_[k]
 //   inner = CSR rows of inner_boundary_circle_matrix_ in storage order
-//   temp (take only) = temp after applyAscOrthoCircleSection(i) for every circle and applyAscOrthoRadialSection(j) for every
-//   radial line on the INPUT iterate;  out = the iterate after one extrapolatedSmoothing() sweep.
+//   temp (take) = temp after applyAscOrthoCircleSection(i) for every circle and applyAscOrthoRadialSection(j) for every
+//   radial line on the INPUT iterate;  temp (give, threads=1) = temp after its initialisation and the four scatter phases of
+//   extrapolatedSmoothingSequential on the INPUT iterate (no solve in between);  out = the iterate after one
+//   extrapolatedSmoothing() sweep.
 static std::string diag_dump(const DiagonalSolver<double>& D)
 {
     if (D.rows() == 0) return "-";
@@ -217,6 +219,23 @@ static int mode_exsmooth(int cases, int max_nr, int max_nt)
                 if (strat == 0) {
                     ExtrapolatedSmootherGive sm(g, L.levelCache(), *p.geo, *p.coef, p.dirbc, threads);
                     ex_matrices(sm, ct, cd, rt, rd, inner);
+                    if (threads == 1) {
+                        // the scatter kernels on the INPUT iterate: temp initialised as extrapolatedSmoothingSequential does
+                        // (fine nodes rhs, coarse nodes x), then Asc-ortho(Black) for i_r = 0..nc, Asc-ortho(White) for i_r = 0..nc-1,
+                        // Asc-ortho(Black) and Asc-ortho(White) for every radial line, in the sequential order, no solve in between
+                        // (every temp value receives the stores of its own colour phase only)
+                        Vector<double> t2(N);
+                        for (int i = 0; i < g.nr(); i++)
+                            for (int j = 0; j < g.ntheta(); j++) {
+                                const int idx = g.index(i, j);
+                                t2[idx]       = ((i & 1) || (j & 1)) ? fv[idx] : xv[idx];
+                            }
+                        for (int i = 0; i < nc + 1; i++) sm.applyAscOrthoCircleSection(i, SmootherColor::Black, xv, fv, t2);
+                        for (int i = 0; i < nc; i++) sm.applyAscOrthoCircleSection(i, SmootherColor::White, xv, fv, t2);
+                        for (int j = 0; j < g.ntheta(); j++) sm.applyAscOrthoRadialSection(j, SmootherColor::Black, xv, fv, t2);
+                        for (int j = 0; j < g.ntheta(); j++) sm.applyAscOrthoRadialSection(j, SmootherColor::White, xv, fv, t2);
+                        tc = hexvec(to_rowmajor(g, t2));
+                    }
                     for (int i = 0; i < N; i++) tmp[i] = rng.uniform(-1e3, 1e3);
                     sm.extrapolatedSmoothing(xv, fv, tmp);
                 }
